@@ -883,7 +883,8 @@ class C19(Property):
         if k == 'sl':
             return 'sl ' + show_cps(case['t'])
         if k == 'rl':
-            return 'rl %s %d' % (hx(content(case)), case['bs'])
+            # text mode: the model decodes every line too
+            return '%s %s %d' % ('rt' if case['mode'][0] == 't' else 'rl', hx(content(case)), case['bs'])
         if k == 'rf':
             return 'rf %s %d %d' % (hx(content(case)), case['pos'], case['bs'])
         if k == 'in':
@@ -1080,6 +1081,9 @@ class C19(Property):
             return show_lines(obs['lines'], show_cps) + '|' + show_lines([cps(l) for l in text.splitlines()], show_cps)
         if k == 'in':
             return 'X' + obs['exc'] if 'exc' in obs else show_cps(obs['text'])
+        if k == 'rl' and case['mode'][0] == 't':
+            s = show_lines(obs['lines'], lambda l: show_cps(cps(unhx(l[1]).decode('utf-8'))) if l[0] == 's' else '!' + l[0] + l[1])
+            return s + ('!' + obs['exc'] if 'exc' in obs else '')
         if k in ('rl', 'rf'):
             want = 'b' if case['mode'][0] == 'b' else 's'
             s = show_lines(obs['lines'], lambda l: l[1] if l[0] == want else '!' + l[0] + l[1])
